@@ -402,3 +402,77 @@ B("B88", "C08-K3", [(CAND, '''    retained_set = make_heuristic_retained_set(
     )
     pn_reduced = sd.petri_net''')], "enumeration on the global Petri net")
 B("B89", "C08-K2", [(ASE, "                solution_limit=1,", "                solution_limit=0,")], "attractor-seed expansion decides emptiness from a zero-limit enumeration")
+
+
+# ------------------------------------------------------------------------------------------ C19
+B("B42", "C19-N1", [(CTRL, "            cs = sorted(map(lambda x: sorted(x.items()), c))", "            cs = sorted(map(lambda x: list(x.items()), c))")],
+  "Intervention no longer sorts the items of each driver set")
+B("B43", "C19-N2", [(SD, '''        sub_spaces = sorted(
+            sub_spaces, key=lambda space: space_unique_key(space, self.network)
+        )
+''', '')], "child sub-spaces no longer sorted before ids are assigned")
+B("B44", "C19-N2", [(BLK, "        for node in sorted(current_level):  # Sorted for determinism", "        for node in current_level:")],
+  "block expansion traverses the level set unsorted")
+B("B45", "C19-N3", [(CAND, "    generator = random.Random(simulation_seed)", "    generator = random.Random()")], "simulation seeded from the OS")
+B("B45b", "C19-N3", [(CAND, "                simulation_seed=123,", "                simulation_seed=len(candidate_states) + node_id,")],
+  "simulation seed depends on run-time values")
+B("B46", "C19-N4", [(TRAP, '''    results: list[BooleanSpace] = []
+
+    if solution_limit is not None and solution_limit <= 0:
+        return results
+
+    def save_result(x: BooleanSpace) -> bool:
+        results.append(x)
+        if solution_limit is None:
+            return True
+        else:
+            return len(results) < solution_limit
+
+    compute_fixed_point_reduced_STG_async(''', '''    results: list[BooleanSpace] = []
+
+    if solution_limit is not None and solution_limit <= 0:
+        return results
+
+    def save_result(x: BooleanSpace) -> bool:
+        results.append(x)
+        if solution_limit is None:
+            return True
+        else:
+            return len(results) < solution_limit
+
+    if len(retained_set) > 0:
+        avoid_subspaces.append(dict(retained_set))
+        avoid_subspaces.pop()
+    compute_fixed_point_reduced_STG_async(''')], "mutable default list mutated")
+B("B90", "C19-N2", [(BFS, "            successors = sorted(successors)\n", "")], "BFS traverses successors unsorted")
+B("B91", "C19-N4", [(SD, '''        config_copy: SuccessionDiagramConfiguration = copy.copy(self.config)
+        return SuccessionDiagram(component_bn, config_copy)''', '''        return SuccessionDiagram(component_bn, self.config)''')],
+  "sub-diagram shares the parent's config object")
+B("B92", "C19-N1", [(CTRL, '''    drivers: ControlOverrides = []
+    for driver_set_size in range(max_drivers_per_succession_node + 1):''', '''    drivers: ControlOverrides = []
+    first_pool_member = next(iter(driver_pool)) if driver_pool else None
+    for driver_set_size in range(max_drivers_per_succession_node + 1):''')], "first element of a string set picked")
+V("V93", "driver pool sorted explicitly", edits=[(CTRL, "        for driver_set in combinations(driver_pool, driver_set_size):", "        for driver_set in combinations(sorted(driver_pool), driver_set_size):")])
+
+
+# ------------------------------------------------------------------------------------------ C09
+B("B52", "C09-T1", [(TRAP, "fixed_list = [variable_to_place(var, (to_avoid[var] != 1)) for var in to_avoid]",
+                     "fixed_list = [variable_to_place(var, (to_avoid[var] == 1)) for var in to_avoid]")],
+  "trap-space avoid constraint uses the opposite polarity")
+B("B52b", "C09-T1", [(TRAP, "        space[variable] = 1 if is_positive else 0", "        space[variable] = 0 if is_positive else 1")],
+  "fixed-point decoder flipped")
+B("B52c", "C09-T1", [(TRAP, "        source_place = variable_to_place(node, positive=(b_i == 1))", "        source_place = variable_to_place(node, positive=(b_i == 0))")],
+  "retained set applied to the opposite place")
+B("B53", "C09-T2", [(TRAP, "                    if predecessor not in successors:\n                        ctl.add(f\"{s_disjunction} :- {predecessor}.\")",
+                     "                    if predecessor in successors:\n                        ctl.add(f\"{s_disjunction} :- {predecessor}.\")")],
+  "trap branch only: tautology test inverted")
+B("B94", "C09-T3", [(TRAP, "            return len(results) < solution_limit", "            return len(results) <= solution_limit", 2)],
+  "callback lets one result too many through")
+B("B95", "C09-T4", [(TRAP, '        if problem == "fix":\n            ctl.add(f"{p_name} ; {n_name}.")', '        if problem != "max":\n            ctl.add(f"{p_name} ; {n_name}.")')],
+  "totality clause also emitted for minimal trap spaces")
+B("B96", "C09-T4", [(TRAP, "            if place_to_variable(node)[0] not in ensure_subspace:\n                free_places.append(node)",
+                     "            free_places.append(node)")], "ensured places count as free in the non-triviality clause")
+B("B97", "C09-T4", [(TRAP, '    if problem == "max" and len(free_places) > 0:', '    if len(free_places) > 0:')],
+  "non-triviality clause emitted for every problem kind")
+B("B98", "C09-T1", [(TRAP, "        deleted_transitions = list(set(succs) - set(preds))", "        deleted_transitions = list(set(succs))")],
+  "retained reduction also deletes read-arc transitions")
